@@ -930,6 +930,15 @@ func c17SepLit(rc *RuleCtx) {
 						report(x, x.X, "concatenation")
 						report(x, x.Y, "concatenation")
 					}
+					if x.Op == token.EQL || x.Op == token.NEQ {
+						// a byte of a path compared with a separator
+						if _, isIdx := strip(x.X).(*ssa.Index); isIdx {
+							report(x, x.Y, "comparison of a path byte")
+						}
+						if _, isIdx := strip(x.Y).(*ssa.Index); isIdx {
+							report(x, x.X, "comparison of a path byte")
+						}
+					}
 				case *ssa.Call:
 					if fn := calleeFunc(x); fn != nil && fn.Pkg() != nil && fn.Pkg().Path() == "strings" {
 						for _, a := range x.Call.Args {
@@ -2023,6 +2032,21 @@ func init() {
 func c02Unlinked(rc *RuleCtx) {
 	for _, pk := range []string{"memfs", "orefafs"} {
 		for _, f := range rc.C.srcFuncs(pk) {
+			// the content of a node is emptied by truncation only: nowhere else is nil stored into it (a Close that drops
+			// the content of a file without a name empties it for the other handles still open on it)
+			if nm(f) != "truncate" {
+				eachInstr(f, func(in ssa.Instruction) {
+					st, ok := in.(*ssa.Store)
+					if !ok {
+						return
+					}
+					fa, ok := st.Addr.(*ssa.FieldAddr)
+					if !ok || fieldName(fa.X.Type(), fa.Field) != "data" || !isNilConst(strip(st.Val)) || objKeyOf(fa).fresh {
+						return
+					}
+					rc.bad(entryOwners(lockAnalysisFor(rc.C))(f)+" drops the content", st.Pos(), "the content of a node is set to nil outside truncate: handles that are still open on the file (and its other hard links) lose the data")
+				})
+			}
 			if !isUnlinkRoutine(f) {
 				continue
 			}
@@ -2292,4 +2316,672 @@ func c05SameNode(rc *RuleCtx) {
 			rc.good(cons, f.Pos(), fmt.Sprintf("%d change(s) of the tree, each reached only after the two nodes were seen to differ (or the new name to be free)", len(muts)))
 		}
 	}
+}
+
+// ---- rules added after the fourth round ----
+
+func init() {
+	register(&Rule{ID: "C17.notexist", Floor: 1, Also: []string{"C01"},
+		Text: "the error table gives 'no such directory' and 'no such file' one value on POSIX and two on Windows: the not-exist predicate of MemFS accepts every entry of the table whose POSIX value is ENOENT (the set is read from Errors.SetOSType), so that what is 'missing' does not depend on the emulated OS",
+		Run:  c17NotExist})
+	register(&Rule{ID: "C16.flow", Floor: 1,
+		Text: "inside the copy helpers of copy.go (the functions CopyFileHash / HashFile reach), the error of every Read and Write reaches the error result of the helper that made the call (end-of-file excepted): a failed read that only ends the loop is reported as a successful, shorter copy",
+		Run:  c16Flow})
+	register(&Rule{ID: "C03.rmtree", Floor: 2, Also: []string{"C05"},
+		Text: "RemoveAll releases a directory only after everything below it was released: a call that releases a directory node (delete) after the recursive removal of its content is reached, on every path that made the recursive call, only through the nil branch of that call's error - a subtree the caller may not write stays intact when the call answers EACCES",
+		Run:  c03RmTree})
+	register(&Rule{ID: "C06.handle", Floor: 3, Also: []string{"C02", "C07"},
+		Text: "OpenFile never builds a handle on a nil node: on every path to the construction of a MemFile the node is the one just created, was tested non-nil or matched by a type switch, or is the child of a walk whose status is 'found' (the walk returns 'found' only with a node, checked on its returns) - a name created by another call between the walk and the directory lock must be looked at again, not assumed missing",
+		Run:  c06Handle})
+}
+
+func c17NotExist(rc *RuleCtx) {
+	set := rc.C.method("avfs", "Errors", "SetOSType")
+	pred := rc.C.method("memfs", "MemFS", "isNotExist")
+	cons := "memfs.(*MemFS).isNotExist covers the table"
+	if set == nil || pred == nil {
+		rc.anchor("avfs.(*Errors).SetOSType / memfs.(*MemFS).isNotExist")
+		return
+	}
+	// fields of Errors assigned avfs.ErrNoSuchFileOrDir
+	want := map[string]bool{}
+	eachInstr(set, func(in ssa.Instruction) {
+		st, ok := in.(*ssa.Store)
+		if !ok {
+			return
+		}
+		fa, ok := st.Addr.(*ssa.FieldAddr)
+		if !ok {
+			return
+		}
+		if k, isC := strip(st.Val).(*ssa.Const); isC && constName(k) == "avfs.ErrNoSuchFileOrDir" {
+			want[fieldName(fa.X.Type(), fa.Field)] = true
+		}
+	})
+	if len(want) == 0 {
+		rc.anchor("entries of avfs.Errors with the POSIX value ENOENT")
+		return
+	}
+	got := map[string]bool{}
+	eachInstr(pred, func(in ssa.Instruction) {
+		bo, ok := in.(*ssa.BinOp)
+		if !ok || bo.Op != token.EQL {
+			return
+		}
+		for _, o := range []ssa.Value{bo.X, bo.Y} {
+			if ld, ok := strip(resolve1(o)).(*ssa.UnOp); ok && ld.Op == token.MUL {
+				if fa, ok := ld.X.(*ssa.FieldAddr); ok {
+					got[fieldName(fa.X.Type(), fa.Field)] = true
+				}
+			}
+		}
+	})
+	var missing []string
+	for f := range want {
+		if !got[f] {
+			missing = append(missing, f)
+		}
+	}
+	sort.Strings(missing)
+	if len(missing) > 0 {
+		rc.bad(cons, pred.Pos(), "the predicate does not accept the table entry "+strings.Join(missing, ", ")+", which is ENOENT on POSIX but a distinct error on Windows: on a Windows-typed file system a missing directory is no longer 'missing' (MkdirAll of two missing levels fails, RemoveAll below a missing directory reports an error)")
+	} else {
+		rc.good(cons, pred.Pos(), fmt.Sprintf("accepts the %d entries whose POSIX value is ENOENT", len(want)))
+	}
+}
+
+func c16Flow(rc *RuleCtx) {
+	roots := []*ssa.Function{rc.C.fn("avfs", "CopyFileHash"), rc.C.fn("avfs", "HashFile")}
+	seen := map[*ssa.Function]bool{}
+	var helpers []*ssa.Function
+	var visit func(f *ssa.Function, top bool)
+	visit = func(f *ssa.Function, top bool) {
+		if f == nil || seen[f] || len(f.Blocks) == 0 {
+			return
+		}
+		seen[f] = true
+		if !top {
+			helpers = append(helpers, f)
+		}
+		eachCall(f, func(ci ssa.CallInstruction) {
+			if sc := ci.Common().StaticCallee(); sc != nil && sc.Pkg != nil && sc.Pkg.Pkg.Path() == modPath && !isEntryPoint(sc) {
+				visit(sc, false)
+			}
+		})
+	}
+	for _, r := range roots {
+		if r == nil {
+			rc.anchor("avfs.CopyFileHash / avfs.HashFile")
+			return
+		}
+		visit(r, true)
+	}
+	n := 0
+	for _, f := range helpers {
+		ei := errResultIndex(f.Signature)
+		if ei < 0 {
+			continue
+		}
+		n++
+		cons := funcName(f) + " errors of Read/Write reach the result"
+		bad := ""
+		eachCall(f, func(ci ssa.CallInstruction) {
+			c, ok := ci.(*ssa.Call)
+			if !ok || !c.Call.IsInvoke() {
+				return
+			}
+			m := c.Call.Method.Name()
+			if m != "Read" && m != "Write" {
+				return
+			}
+			var ev ssa.Value
+			for _, u := range referrersOf(c) {
+				if e, isE := u.(*ssa.Extract); isE && isErrorType(e.Type()) {
+					ev = e
+				}
+			}
+			if ev == nil {
+				bad = "the error of " + m + " is discarded"
+				return
+			}
+			reaches := false
+			for _, r := range returnsOf(f) {
+				for _, rv := range resolveRaw(r.Results[ei]) {
+					if rv == ev || strip(rv) == ev {
+						reaches = true
+					}
+				}
+				if flowsThroughPhi(r.Results[ei], ev, 0) {
+					reaches = true
+				}
+			}
+			if !reaches {
+				bad = "the error returned by " + m + " (" + rc.C.pos(c.Pos()) + ") never reaches the error result of " + f.Name() + ": a failing " + strings.ToLower(m) + " ends the copy and the caller is told it succeeded"
+			}
+		})
+		if bad != "" {
+			rc.bad(cons, f.Pos(), bad)
+		} else {
+			rc.good(cons, f.Pos(), "every Read/Write error reaches a return (or the helper delegates to io.CopyBuffer)")
+		}
+	}
+	if n == 0 {
+		rc.anchor("copy helpers reached from CopyFileHash / HashFile")
+	}
+}
+
+func flowsThroughPhi(v, src ssa.Value, depth int) bool {
+	if v == nil || depth > 6 {
+		return false
+	}
+	if v == src || strip(v) == src {
+		return true
+	}
+	if phi, ok := v.(*ssa.Phi); ok {
+		for _, e := range phi.Edges {
+			if e != v && flowsThroughPhi(e, src, depth+1) {
+				return true
+			}
+		}
+	}
+	for _, rv := range resolveRaw(v) {
+		if rv != v && flowsThroughPhi(rv, src, depth+1) {
+			return true
+		}
+	}
+	return false
+}
+
+// pathFactsBetween enumerates acyclic paths from `from` to `to` and returns the branch decisions taken on each.
+func pathFactsBetween(from, to ssa.Instruction, limit int) (paths [][]Fact, complete bool) {
+	fb, tb := from.Block(), to.Block()
+	complete = true
+	if fb == tb {
+		if instrIndex(from) < instrIndex(to) {
+			return [][]Fact{nil}, true
+		}
+	}
+	canReach := map[*ssa.BasicBlock]bool{}
+	var mark func(b *ssa.BasicBlock)
+	mark = func(b *ssa.BasicBlock) {
+		if canReach[b] {
+			return
+		}
+		canReach[b] = true
+		for _, p := range b.Preds {
+			mark(p)
+		}
+	}
+	mark(tb)
+	var walk func(b *ssa.BasicBlock, facts []Fact, seen map[*ssa.BasicBlock]bool)
+	walk = func(b *ssa.BasicBlock, facts []Fact, seen map[*ssa.BasicBlock]bool) {
+		if len(paths) >= limit {
+			complete = false
+			return
+		}
+		if b == tb && len(seen) > 0 {
+			paths = append(paths, append([]Fact(nil), facts...))
+			return
+		}
+		if seen[b] || !canReach[b] {
+			return
+		}
+		seen[b] = true
+		defer delete(seen, b)
+		last := b.Instrs[len(b.Instrs)-1]
+		if iff, ok := last.(*ssa.If); ok {
+			walk(b.Succs[0], append(append([]Fact(nil), facts...), Fact{iff.Cond, true, iff}), seen)
+			walk(b.Succs[1], append(append([]Fact(nil), facts...), Fact{iff.Cond, false, iff}), seen)
+			return
+		}
+		for _, s := range b.Succs {
+			walk(s, facts, seen)
+		}
+	}
+	walk(fb, nil, map[*ssa.BasicBlock]bool{})
+	return
+}
+
+func c03RmTree(rc *RuleCtx) {
+	n := 0
+	for _, f := range rc.C.srcFuncs("memfs") {
+		var recs []*ssa.Call
+		eachCall(f, func(ci ssa.CallInstruction) {
+			if c, ok := ci.(*ssa.Call); ok {
+				if fn := calleeFunc(c); fn != nil && nm(fn) == "removeAll" {
+					recs = append(recs, c)
+				}
+			}
+		})
+		if len(recs) == 0 {
+			continue
+		}
+		for _, rec := range recs {
+			// the directory passed to the recursive removal, and the node it was asserted from
+			arg := callArgs(rec)[0]
+			var src ssa.Value = arg
+			if e, ok := strip(arg).(*ssa.Extract); ok {
+				if ta, ok := e.Tuple.(*ssa.TypeAssert); ok {
+					src = ta.X
+				}
+			}
+			if ta, ok := strip(arg).(*ssa.TypeAssert); ok {
+				src = ta.X
+			}
+			eachCall(f, func(ci ssa.CallInstruction) {
+				fn := calleeFunc(ci)
+				if fn == nil || nm(fn) != "delete" {
+					return
+				}
+				r := callRecv(ci)
+				if ci.Common().IsInvoke() {
+					r = ci.Common().Value
+				}
+				if r == nil || !(sameValue(r, src) || sameValue(r, arg) || strip(resolve1(r)) == strip(resolve1(src))) {
+					return
+				}
+				if !instrReaches(rec, ci) {
+					return
+				}
+				n++
+				cons := fmt.Sprintf("%s releases %s after its content", funcName(f), prettyVal(src, 0))
+				paths, complete := pathFactsBetween(rec, ci, 2000)
+				ok := complete && len(paths) > 0
+				for _, p := range paths {
+					tested := false
+					for _, fa := range p {
+						if x, isNil, k := nilTest(fa); k && isNil && strip(resolve1(x)) == ssa.Value(rec) {
+							tested = true
+						}
+					}
+					if !tested {
+						ok = false
+					}
+				}
+				if ok {
+					rc.good(cons, ci.Pos(), "released only through the nil branch of the recursive removal's error")
+				} else {
+					rc.bad(cons, ci.Pos(), "the directory is released on a path where the removal of its content may have failed: a subtree the caller may not change is emptied although the call reports permission denied")
+				}
+			})
+		}
+	}
+	if n == 0 {
+		rc.anchor("release of a directory after the recursive removal of its content (memfs RemoveAll / removeAll)")
+	}
+}
+
+func c06Handle(rc *RuleCtx) {
+	f := rc.C.method("memfs", "MemFS", "OpenFile")
+	walk := rc.C.method("memfs", "MemFS", "searchNode")
+	if f == nil || walk == nil {
+		rc.anchor("memfs.(*MemFS).OpenFile / searchNode")
+		return
+	}
+	// lemma: the walk answers 'found' only with a node
+	lemma := true
+	nFound := 0
+	for _, r := range returnsOf(walk) {
+		found := false
+		for _, ev := range resolveRaw(r.Results[3]) {
+			if ld, ok := strip(ev).(*ssa.UnOp); ok && ld.Op == token.MUL {
+				if fa, ok := ld.X.(*ssa.FieldAddr); ok && fieldName(fa.X.Type(), fa.Field) == "FileExists" {
+					found = true
+				}
+			}
+		}
+		if !found {
+			continue
+		}
+		nFound++
+		okR := true
+		for _, cv := range resolveRaw(r.Results[1]) {
+			nonNil := false
+			if _, isMI := cv.(*ssa.MakeInterface); isMI {
+				nonNil = true // the directory itself, converted to the node interface
+			}
+			cv = strip(cv)
+			if isNilConst(cv) {
+				nonNil = false
+			}
+			for _, fa := range factsAt(r.Block()) {
+				if x, isNil, k := nilTest(fa); k && !isNil {
+					for _, xv := range resolveRaw(x) {
+						if strip(xv) == cv {
+							nonNil = true
+						}
+					}
+				}
+				// a type switch case on the child
+				c, truth := normCond(fa.Cond, fa.Truth)
+				if e, isE := c.(*ssa.Extract); isE && truth && e.Index == 1 {
+					if ta, isTA := e.Tuple.(*ssa.TypeAssert); isTA {
+						for _, xv := range resolveRaw(ta.X) {
+							if strip(xv) == cv {
+								nonNil = true
+							}
+						}
+					}
+				}
+			}
+			if !nonNil {
+				okR = false
+				if os.Getenv("AVFSLINT_DEBUG") != "" {
+					fmt.Fprintln(os.Stderr, "lemma fails at", rc.C.pos(r.Pos()), "child:", dbgVals([]ssa.Value{cv}), "facts:", dbgFacts(rc.C, factsAt(r.Block())))
+				}
+			}
+		}
+		if !okR {
+			lemma = false
+		}
+	}
+	if nFound == 0 {
+		lemma = false
+	}
+	if lemma {
+		rc.good(funcName(walk)+" 'found' comes with a node", walk.Pos(), fmt.Sprintf("%d returns with the 'found' status, each with a non-nil child", nFound))
+	} else {
+		rc.bad(funcName(walk)+" 'found' comes with a node", walk.Pos(), "a return of the walk carries the 'found' status with a child that may be nil")
+	}
+	var wcall *ssa.Call
+	eachCall(f, func(ci ssa.CallInstruction) {
+		if c, ok := ci.(*ssa.Call); ok {
+			if fn := calleeFunc(c); fn != nil && nm(fn) == "searchNode" {
+				wcall = c
+			}
+		}
+	})
+	var wChild, wErr *ssa.Extract
+	if wcall != nil {
+		for _, u := range referrersOf(wcall) {
+			if e, ok := u.(*ssa.Extract); ok {
+				switch e.Index {
+				case 1:
+					wChild = e
+				case 3:
+					wErr = e
+				}
+			}
+		}
+	}
+	// constructions of a handle: composite literal of MemFile, or a call of an unexported constructor returning *MemFile
+	type site struct {
+		in ssa.Instruction
+		nd ssa.Value
+	}
+	var sites []site
+	eachInstr(f, func(in ssa.Instruction) {
+		switch x := in.(type) {
+		case *ssa.Store:
+			fa, ok := x.Addr.(*ssa.FieldAddr)
+			if !ok || fieldName(fa.X.Type(), fa.Field) != "nd" {
+				return
+			}
+			if nt := namedOf(fa.X.Type()); nt != nil && nt.Obj().Name() == "MemFile" {
+				sites = append(sites, site{x, x.Val})
+			}
+		case *ssa.Call:
+			sc := x.Call.StaticCallee()
+			if sc == nil || sc.Pkg != f.Pkg || isEntryPoint(sc) || sc.Signature.Results().Len() != 1 {
+				return
+			}
+			if nt := namedOf(sc.Signature.Results().At(0).Type()); nt == nil || nt.Obj().Name() != "MemFile" {
+				return
+			}
+			for _, a := range x.Call.Args {
+				if _, isI := a.Type().Underlying().(*types.Interface); isI && isNamed(a.Type(), modPath+"/vfs/memfs", "node") {
+					sites = append(sites, site{x, a})
+				}
+			}
+		}
+	})
+	allPaths := evalPaths(f, nil, 20000)
+	for i, s := range sites {
+		cons := fmt.Sprintf("%s handle#%d built on a node", funcName(f), i+1)
+		if len(allPaths) == 0 || len(allPaths) >= 20000 {
+			rc.bad(cons, s.in.Pos(), "too many paths to decide")
+			continue
+		}
+		bad := false
+		np := 0
+		for _, p := range allPaths {
+			// the part of the path up to the construction
+			at := -1
+			for bi, b := range p.Blocks {
+				if b == s.in.Block() {
+					at = bi
+				}
+			}
+			if at < 0 {
+				continue
+			}
+			var facts []Fact
+			for _, fa := range p.Conds {
+				for bi := 0; bi < at; bi++ {
+					if fa.If != nil && fa.If.Block() == p.Blocks[bi] {
+						facts = append(facts, fa)
+					}
+				}
+			}
+			if !feasiblePath(facts) {
+				continue
+			}
+			np++
+			raw := valueOnPath(s.nd, p.Blocks[:at+1])
+			just := false
+			if _, isMI := raw.(*ssa.MakeInterface); isMI {
+				if c, _ := resultOfCall(strip(raw)); c != nil {
+					if fn := calleeFunc(c); fn != nil && strings.HasPrefix(nm(fn), "create") {
+						just = true // created by this call
+					}
+				}
+			}
+			cand := strip(raw)
+			if c, _ := resultOfCall(cand); c != nil {
+				if fn := calleeFunc(c); fn != nil && strings.HasPrefix(nm(fn), "create") {
+					just = true
+				}
+			}
+			for _, fa := range facts {
+				if x, isNil, k := nilTest(fa); k && !isNil && strip(valueOnPath(x, p.Blocks[:at+1])) == cand {
+					just = true
+				}
+				c, truth := normCond(fa.Cond, fa.Truth)
+				if e, isE := c.(*ssa.Extract); isE && truth && e.Index == 1 {
+					if ta, isTA := e.Tuple.(*ssa.TypeAssert); isTA && strip(valueOnPath(ta.X, p.Blocks[:at+1])) == cand {
+						just = true
+					}
+				}
+				if wChild != nil && wErr != nil && cand == ssa.Value(wChild) && lemma {
+					if bo, isB := c.(*ssa.BinOp); isB && (bo.Op == token.EQL || bo.Op == token.NEQ) && (bo.Op == token.EQL) == truth {
+						for _, pair := range [][2]ssa.Value{{bo.X, bo.Y}, {bo.Y, bo.X}} {
+							if strip(resolve1(pair[0])) == ssa.Value(wErr) {
+								if ld, ok := strip(resolve1(pair[1])).(*ssa.UnOp); ok && ld.Op == token.MUL {
+									if fa2, ok := ld.X.(*ssa.FieldAddr); ok && fieldName(fa2.X.Type(), fa2.Field) == "FileExists" {
+										just = true
+									}
+								}
+							}
+						}
+					}
+				}
+			}
+			if !just {
+				bad = true
+				if os.Getenv("AVFSLINT_DEBUG") != "" {
+					fmt.Fprintln(os.Stderr, "handle path:", dbgVals([]ssa.Value{raw}), "facts:", dbgFacts(rc.C, facts))
+				}
+			}
+		}
+		if bad {
+			rc.bad(cons, s.in.Pos(), "a path builds the handle on a node that was neither created by this call, nor tested, nor returned by the walk with the 'found' status: when another call created the name between the walk and the directory lock, the handle has no node (and the exclusive-create and permission checks were skipped)")
+		} else {
+			rc.good(cons, s.in.Pos(), fmt.Sprintf("%d paths: the node is created, tested or found on each", np))
+		}
+	}
+	if len(sites) == 0 {
+		rc.anchor("construction of a MemFile in memfs.(*MemFS).OpenFile")
+	}
+}
+
+func init() {
+	register(&Rule{ID: "C09.errfamily", Floor: 2, Also: []string{"C17"},
+		Text: "the errors a read-only file system refuses with belong to the emulated OS: in rofs.New a Windows error constant is stored into the wrapper's error fields only under the test that the base's OS type IS Windows (an equality with avfs.OsWindows), every other type (Linux, Darwin) keeps the POSIX errors - otherwise a refusal on a Unix-typed file system is not a permission-class error",
+		Run:  c09ErrFamily})
+	register(&Rule{ID: "C16.poolnew", Floor: 1,
+		Text: "every Get on the copy pool that finds it empty allocates a buffer of its own: the New function of the pool returns the address of a slice allocated inside that function, not of a variable captured from the constructor (which all buffers would share)",
+		Run:  c16PoolNew})
+}
+
+func c09ErrFamily(rc *RuleCtx) {
+	f := rc.C.fn("rofs", "New")
+	if f == nil {
+		rc.anchor("rofs.New")
+		return
+	}
+	n := 0
+	eachInstr(f, func(in ssa.Instruction) {
+		st, ok := in.(*ssa.Store)
+		if !ok {
+			return
+		}
+		fa, ok := st.Addr.(*ssa.FieldAddr)
+		if !ok {
+			return
+		}
+		k, ok := strip(st.Val).(*ssa.Const)
+		if !ok || k.Value == nil {
+			return
+		}
+		nt, ok := k.Type().(*types.Named)
+		if !ok || (nt.Obj().Name() != "WindowsError" && nt.Obj().Name() != "LinuxError") {
+			return
+		}
+		n++
+		cons := fmt.Sprintf("rofs.New %s <- %s", fieldName(fa.X.Type(), fa.Field), constName(k))
+		underWindows, underOther := false, false
+		for _, fact := range factsAt(st.Block()) {
+			c, truth := normCond(fact.Cond, fact.Truth)
+			bo, ok := c.(*ssa.BinOp)
+			if !ok || (bo.Op != token.EQL && bo.Op != token.NEQ) {
+				continue
+			}
+			for _, pair := range [][2]ssa.Value{{bo.X, bo.Y}, {bo.Y, bo.X}} {
+				if !isCallNamed(pair[0], "OSType") {
+					continue
+				}
+				kc, isC := strip(pair[1]).(*ssa.Const)
+				if !isC {
+					continue
+				}
+				eq := (bo.Op == token.EQL) == truth
+				if constName(kc) == "avfs.OsWindows" && eq {
+					underWindows = true
+				} else {
+					underOther = true
+				}
+			}
+		}
+		switch {
+		case nt.Obj().Name() == "WindowsError" && underWindows && !underOther:
+			rc.good(cons, st.Pos(), "stored only when the base's OS type is Windows")
+		case nt.Obj().Name() == "WindowsError":
+			rc.bad(cons, st.Pos(), "a Windows error is installed on a condition other than `OSType() == OsWindows`: a base of another non-Linux type (Darwin) refuses with errors that are not permission-class on a Unix-like system")
+		case underWindows:
+			rc.bad(cons, st.Pos(), "a POSIX error is installed for a Windows-typed base")
+		default:
+			rc.good(cons, st.Pos(), "POSIX default")
+		}
+	})
+	// defaults set by the composite literal are stores too; nothing found at all means the anchors are gone
+	if n == 0 {
+		rc.anchor("stores of error constants into the fields of RoFS in rofs.New")
+	}
+}
+
+func c16PoolNew(rc *RuleCtx) {
+	n := 0
+	for _, f := range rc.C.srcFuncs("avfs") {
+		if f.Parent() == nil {
+			continue
+		}
+		// a closure stored into the New field of a sync.Pool
+		isNew := false
+		for _, u := range referrersOf2(f) {
+			if st, ok := u.(*ssa.Store); ok {
+				if fa, ok := st.Addr.(*ssa.FieldAddr); ok && fieldName(fa.X.Type(), fa.Field) == "New" && isNamed(fa.X.Type(), "sync", "Pool") {
+					isNew = true
+				}
+			}
+		}
+		if !isNew {
+			continue
+		}
+		n++
+		cons := funcName(f.Parent()) + " pool New allocates"
+		bad := false
+		for _, r := range returnsOf(f) {
+			for _, rv := range resolveRaw(r.Results[0]) {
+				v := strip(rv)
+				if mi, ok := rv.(*ssa.MakeInterface); ok {
+					v = strip(mi.X)
+				}
+				switch x := v.(type) {
+				case *ssa.Alloc:
+					if x.Parent() != f {
+						bad = true
+					}
+				case *ssa.FreeVar:
+					bad = true
+				case *ssa.MakeSlice:
+				default:
+					if _, isFree := v.(*ssa.FreeVar); isFree {
+						bad = true
+					}
+				}
+			}
+		}
+		if bad {
+			rc.bad(cons, f.Pos(), "the New function of the pool hands out a variable captured from the enclosing function: every buffer of the pool is the same slice, and two copies in flight overwrite each other's data while both report success")
+		} else {
+			rc.good(cons, f.Pos(), "a slice allocated by the New function itself")
+		}
+	}
+	if n == 0 {
+		rc.anchor("New function of the copy pool (sync.Pool) in package avfs")
+	}
+}
+
+// referrersOf2: instructions of the parent function that use the closure value of f (MakeClosure or the function itself).
+func referrersOf2(f *ssa.Function) []ssa.Instruction {
+	var out []ssa.Instruction
+	p := f.Parent()
+	if p == nil {
+		return nil
+	}
+	eachInstr(p, func(in ssa.Instruction) {
+		for _, op := range in.Operands(nil) {
+			if op == nil || *op == nil {
+				continue
+			}
+			switch x := (*op).(type) {
+			case *ssa.Function:
+				if x == f {
+					out = append(out, in)
+				}
+			case *ssa.MakeClosure:
+				if x.Fn == ssa.Value(f) {
+					out = append(out, in)
+				}
+			case *ssa.MakeInterface:
+				if mc, ok := x.X.(*ssa.MakeClosure); ok && mc.Fn == ssa.Value(f) {
+					out = append(out, in)
+				}
+				if fn, ok := x.X.(*ssa.Function); ok && fn == f {
+					out = append(out, in)
+				}
+			}
+		}
+	})
+	return out
 }
